@@ -58,12 +58,23 @@ class CompactionDriver(ReorgDriver):
         hst = w.store.dbs['hist'].get(b'state\0\0')
         hf = ast.literal_eval(hst.decode())['flush_count'] if hst else 0
         self.hist_before, _rows = self.raw_histories(max_flush_id=uf)
+        self.unclean = True
         self.probe('c14.snapshots')
         if hf > uf:
             self.probe('c14.unclean_db_with_excess_rows')
 
     def op_check_hist(self, op):
-        now, rows = self.raw_histories()
+        flt = None
+        if getattr(self, 'unclean', False):
+            # while the excess rows of the unclean shutdown have not been cleared yet (the tool died before
+            # its own clean-up committed) the database still stands for the rows up to the UTXO flush count
+            import ast
+            st = self.stored_state()
+            hst = self.w.store.dbs['hist'].get(b'state\0\0')
+            hf = ast.literal_eval(hst.decode())['flush_count'] if hst else 0
+            if st and hf > st['utxo_flush_count'] and getattr(self, 'hazard_rows_above', None) is None:
+                flt = st['utxo_flush_count']
+        now, rows = self.raw_histories(max_flush_id=flt)
         self.max_rows = max(rows.values()) if rows else 0
         if now != self.hist_before:
             bad = [hx for hx in set(now) | set(self.hist_before) if now.get(hx) != self.hist_before.get(hx)]
